@@ -17,7 +17,7 @@
 (*    string : the sequence of its characters without the trailing NUL pad, each  *)
 (*             character a token: "sp" space, "dl" the delimiter character of the *)
 (*             run, "tb" a tab that is not the delimiter, "nul", or the           *)
-(*             character itself.                                                  *)
+(*             character itself ("x" is the letter of the bounded model).         *)
 (*  The round trip must return the same names, types and shapes, every field in   *)
 (*  native order, equal cells, and (sfile) a header that records the delimiter    *)
 (*  and a dtype without byte-order characters.  Each clause is named.             *)
@@ -130,9 +130,10 @@ TCIsWS(c, dc) == c \in TCWSChars \/ (c = "dl" /\ dc \in {"tab", "space"})
 \* decimal text of the symbolic number tokens (what printf would produce, in miniature:
 \* an optional sign and one or more number characters; distinct tokens, distinct texts)
 TCNumText == [min |-> <<"-", "9">>, m1 |-> <<"-", "1">>, z |-> <<"0">>, p1 |-> <<"1">>, max |-> <<"9">>,
-              nan |-> <<"n">>, pinf |-> <<"i">>, ninf |-> <<"-", "i">>, pz |-> <<"0">>, nz |-> <<"-", "0">>,
+              nan |-> <<"n", "a", "n">>, pinf |-> <<"i", "n", "f">>, ninf |-> <<"-", "i", "n", "f">>,
+              pz |-> <<"0">>, nz |-> <<"-", "0">>,
               fa |-> <<"1", ".", "5">>, fb |-> <<"-", "2", "e", "9">>]
-TCNumChars == {"-", "0", "1", "2", "5", "9", "n", "i", ".", "e"}
+TCNumChars == {"-", "0", "1", "2", "5", "9", "n", "a", "i", "f", ".", "e"}   \* the letter of string cells is "x"
 TCIntToks  == {"min", "m1", "z", "p1", "max"}
 TCFltToks  == {"nan", "pinf", "ninf", "pz", "nz", "fa", "fb"}
 TCTokOf(run, k) ==                                   \* what scanf makes of a run of number characters
